@@ -1,7 +1,8 @@
 (* C15: the generator's accessors ([gen_accessor]) refine the bit-range specification
    ([spec_get]/[spec_set]/[spec_has]) for every well-formed field descriptor and every struct,
    and the specification has the round-trip / frame / default / union properties. *)
-From CV Require Import Layout.Layout Layout.BytesProofs.
+From CV Require Import Layout.Layout.
+From CV Require Import Layout.BytesProofs.
 Open Scope Z_scope.
 
 Lemma wrap32_small : forall z, 0 <= z < 2 ^ 32 -> wrap32 z = z.
